@@ -93,6 +93,7 @@ class Ctx:
         self.suppressed_hits = Counter()
         self.violations = []  # dicts
         self.current = None
+        self.pending = None
         self.deadline = deadline
         self.skipped_for_time = 0
         self.notes = []
@@ -125,8 +126,17 @@ class Ctx:
             return
         if full in self.suppressed:
             self.suppressed_hits[full] += 1
-            raise Abandon(full)
-        raise Violation(full, what, detail)
+            self.pending = Abandon(full)
+            raise self.pending
+        # remembered as well as raised: oracle code that wraps library calls in a broad try/except can never swallow a verdict
+        # (safe_run / guard re-raise it when the wrapped call returns normally)
+        self.pending = Violation(full, what, detail)
+        raise self.pending
+
+    def deliver_pending(self):
+        p, self.pending = self.pending, None
+        if p is not None:
+            raise p
 
     def must(self, fn, key, what):
         """Call library code that has to succeed for an in-domain case; an exception is a
@@ -217,9 +227,13 @@ def safe_run(ctx, sub, case):
     was performing an operation it expects to succeed is a violation (keyed by where it was
     raised), anything else is a harness error and propagates"""
     env.reset_library_state()
+    ctx.pending = None
     try:
-        return sub.run(ctx, case)
+        r = sub.run(ctx, case)
+        ctx.deliver_pending()
+        return r
     except Abandon:
+        ctx.pending = None
         return None
     except (Violation, env.HarnessError):
         raise
@@ -233,7 +247,9 @@ def safe_run(ctx, sub, case):
 def guard(ctx, fn):
     """safe_run for an arbitrary callable (used by history interpreters)"""
     try:
-        return fn()
+        r = fn()
+        ctx.deliver_pending()
+        return r
     except (Violation, env.HarnessError, Abandon):
         raise
     except Exception as e:  # noqa
@@ -245,6 +261,7 @@ def guard(ctx, fn):
 
 def run_history(ctx, case, interp_factory, summarize):
     """the replay path of every history property: interpret init + ops, no Hypothesis involved"""
+    ctx.pending = None
     it = interp_factory(ctx, case["init"])
     try:
         for op in case["ops"]:
@@ -293,6 +310,7 @@ def build_machine(ctx, interp_factory, init_strategy, op_strategy, summarize):
             if ctx.out_of_time():
                 return
             env.reset_library_state()
+            ctx.pending = None
             self._do(lambda: setattr(self, "it", interp_factory(ctx, init)))
 
         @rule(op=op_strategy)
